@@ -24,7 +24,20 @@ ASSUMPTIONS = ["imported obligations: C02 (framing), C03 (codec), C07 (definitio
 TRUSTED = ["CPython ast", "indilint abstract interpreter"]
 
 INSTANCE_PKG = "indi.device.properties.instance"
-FIELDS = ("_value", "_state", "_enabled")
+FIELDS = ("_value", "_state", "_enabled")  # re-discovered by _init from the public getters
+F_VALUE, F_STATE, F_ENABLED = FIELDS
+
+
+def _init(p):
+    global FIELDS, F_VALUE, F_STATE, F_ENABLED
+    from .common import backing_field
+    F_VALUE = backing_field(p, INSTANCE_PKG + ".elements.Element", "value")
+    F_STATE = backing_field(p, INSTANCE_PKG + ".vectors.Vector", "state_")
+    en = {backing_field(p, INSTANCE_PKG + q, "enabled") for q in (".elements.Element", ".vectors.Vector", ".group.Group")}
+    if len(en) != 1:
+        raise Undecided(f"the 'enabled' views are backed by different fields {sorted(en)}")
+    F_ENABLED = en.pop()
+    FIELDS = (F_VALUE, F_STATE, F_ENABLED)
 EXEMPT = {
     ("Element", "__init__"): "constructor",
     ("Vector", "__init__"): "constructor",
@@ -62,6 +75,7 @@ def _send_kind(ev):
 
 def rule_pub(ctx):
     p = ctx.p
+    _init(p)
     n = 0
     for fi in p.functions:
         if not fi.module.name.startswith(INSTANCE_PKG):
@@ -89,7 +103,7 @@ def rule_pub(ctx):
             last = max(e.idx for e in stores)
             kinds = [(_send_kind(e), e) for e in pa.events if e.idx > last and _send_kind(e)]
             have = {k for k, _ in kinds}
-            need = {"def", "set"} if "_enabled" in fields else {"set"}
+            need = {"def", "set"} if F_ENABLED in fields else {"set"}
             if not need <= have:
                 ctx.violated("C01.PUB", fi.short, f"a path stores {fields} and returns without publishing {sorted(need - have)}: clients keep the old state", fi=fi, text=f"unpublished:{fields}:{sorted(need - have)}", witness=path_text(pa, 8))
                 bad = True
@@ -116,6 +130,7 @@ def rule_pub(ctx):
 
 def rule_order(ctx):
     p = ctx.p
+    _init(p)
     vec = p.cls(f"{INSTANCE_PKG}.vectors.Vector")
     grp = p.cls(f"{INSTANCE_PKG}.group.Group")
     for ci, looped in ((vec, False), (grp, True)):
@@ -131,7 +146,7 @@ def rule_order(ctx):
                 ctx.violated("C01.ORDER", f.short, "the enabled setter can raise by itself", fi=f, text="raises")
                 bad = True
                 continue
-            st = [e for e in pa.events if e.kind == "store" and e.data.get("attr") == "_enabled"]
+            st = [e for e in pa.events if e.kind == "store" and e.data.get("attr") == F_ENABLED]
             sends = [(_send_kind(e), e) for e in pa.events if _send_kind(e)]
             if len(st) != 1 or show(st[0].data["value"]) != "value":
                 ctx.violated("C01.ORDER", f.short, "the flag is not stored exactly once from the assigned value", fi=f, text="store")
@@ -196,7 +211,7 @@ def rule_order(ctx):
     for pa in paths:
         if pa.outcome != "return":
             continue
-        st = [e for e in pa.events if e.kind == "store" and e.data.get("attr") == "_state"]
+        st = [e for e in pa.events if e.kind == "store" and e.data.get("attr") == F_STATE]
         if len(st) != 1 or not (mentions(st[0].data["value"], lambda t: isinstance(t, Term) and t.op == "param" and t.args[0] == "value")):
             ok = False
     ctx.check(ok, "C01.ORDER", f.short, "stores the assigned state", "the state setter does not store the assigned state", fi=f, text="state-store")
@@ -207,17 +222,16 @@ from indi.device import Driver, properties
 
 
 class SynA(Driver):
-    name = "SYN"
-    ga = properties.Group("GA")
+    ga = properties.Group("GA", vectors=dict(v=properties.TextVector("VA", elements=dict(a=properties.Text("A")))))
     plain_a = 1
 
 
 class SynB(SynA):
-    gb = properties.Group("GB")
+    gb = properties.Group("GB", vectors=dict(v=properties.TextVector("VB", elements=dict(a=properties.Text("A")))))
 
 
 class SynC(SynB):
-    gc = properties.Group("GC")
+    gc = properties.Group("GC", vectors=dict(v=properties.TextVector("VC", elements=dict(a=properties.Text("A")))))
 
 
 class SynD(SynC):
@@ -226,149 +240,113 @@ class SynD(SynC):
 
 
 def rule_mro(ctx):
+    """A driver class announces the properties of every ancestor's groups, at any inheritance depth: instances of a
+    four-level analysis-only hierarchy are constructed by interpreting the metaclass, the group collector and the
+    constructors, and a whole-device getProperties is evaluated on each."""
+    from .driverworld import build_drivers
     p = ctx.p
-    if "indilint_synthetic.drivers" not in p.modules:
-        p.add_synthetic_module("indilint_synthetic.drivers", SYN_SRC)
+    _init(p)
     drv = p.cls("indi.device.driver.Driver")
-    meta = p.cls("indi.device.driver.DriverMeta")
-    gdef = p.cls("indi.device.properties.definition.group.Group")
-    new = meta.methods.get("__new__")
-    coll = drv.find_method("_all_group_definitions")
-    if new is None or coll is None:
-        raise Undecided("DriverMeta.__new__ / Driver._all_group_definitions not found")
-    chain = [drv] + [p.cls(f"indilint_synthetic.drivers.Syn{x}") for x in "ABCD"]
-    expected = {"SynA": {"ga"}, "SynB": {"ga", "gb"}, "SynC": {"ga", "gb", "gc"}, "SynD": {"ga", "gb", "gc"}}
-    group_objs = {}
-
-    def class_namespace(ci):
-        d = Dct(label=f"{ci.name}.namespace")
-        d.set(Const("__module__"), Const(ci.module.name))
-        d.set(Const("__qualname__"), Const(ci.name))
-        for k, e in ci.class_attrs.items():
-            is_group = isinstance(e, ast.Call) and p.resolve_class(ci.module, e.func) is gdef
-            if is_group:
-                g = group_objs.setdefault((ci.name, k), Obj(gdef, {"name": Const(k.upper())}, label=f"group:{ci.name}.{k}"))
-                d.set(Const(k), g)
-            else:
-                d.set(Const(k), Obj(None, label=f"<{ci.name}.{k}>"))
-        for k in list(ci.methods) + list(ci.getters):
-            d.set(Const(k), Obj(None, label=f"<{ci.name}.{k}>"))
-        return d
-
-    results = {}
-
-    def run(it: Interp):
-        # 1. the metaclass runs once per class statement, in definition order
-        for ci in chain:
-            ns = class_namespace(ci)
-            it.run_function(Fn(new), [Cls(meta), Const(ci.name), Tup([Cls(b) for b in ci.bases]), ns], {})
-            tbl = ns.get(Const("_group_definitions"))
-            if tbl is None:
-                raise Undecided("DriverMeta.__new__ does not leave a _group_definitions entry in the class namespace")
-            it.heap[("cls:" + ci.qualname, "_group_definitions")] = tbl
-        # 2. the collector, as Driver.__init__ calls it
-        out = {}
-        for ci in chain[1:]:
-            out[ci.name] = it.run_function(Fn(coll, Cls(ci)), [], {})
-        results["out"] = out
-        return Const(None)
-
-    paths = explore(p, run, {"inline": lambda fi, node: fi is coll, "max_depth": 12})
-    ctx.paths_enumerated += len(paths)
-    if len(paths) != 1 or paths[0].outcome != "return":
-        why = f"{len(paths)} paths / outcome {paths[0].outcome}: {show(paths[0].value) if paths[0].value is not None else ''}"
-        if len(paths) == 1 and paths[0].outcome == "raise":
-            ctx.violated("C01.MRO", coll.short, f"collecting group definitions raises on a three-level hierarchy: {why}", fi=coll, text="raises")
-        else:
-            ctx.undecided("C01.MRO", coll.short, f"collector not decided by constant evaluation ({why})", fi=coll)
-        return
+    f = drv.find_method("message_from_client")
+    init = drv.methods["__init__"]
+    gp = p.cls("indi.message.get_properties.GetProperties")
+    expected = {"SynA": ["VA"], "SynB": ["VA", "VB"], "SynC": ["VA", "VB", "VC"], "SynD": ["VA", "VB", "VC"]}
     bad = False
-    for cname, res in results["out"].items():
-        if not isinstance(res, Dct):
-            ctx.undecided("C01.MRO", coll.short, f"result for {cname} is not a dict: {show(res)[:60]}", fi=coll)
+    collected = {}
+    for depth, cname in enumerate(expected, 1):
+        def run(it: Interp):
+            ds = build_drivers(it, p, names=tuple((c, c.upper()) for c in expected), src=SYN_SRC)
+            m = Obj(gp, {"device": Const(cname.upper()), "name": Const(None), "version": Const("1.7"), "__closed__": Const(True)}, label="getProperties")
+            return it.run_function(Fn(f, ds[cname.upper()]), [m], {})
+
+        paths = explore(p, run, {"inline": lambda fi, node: False})
+        ctx.paths_enumerated += len(paths)
+        if len(paths) != 1 or paths[0].outcome != "return":
+            why = f"{len(paths)} paths / outcome {paths[0].outcome}: {show(paths[0].value) if paths[0].value is not None else ''}"
+            if len(paths) == 1 and paths[0].outcome == "raise":
+                ctx.violated("C01.MRO", init.short, f"constructing / querying a driver at inheritance depth {depth} raises: {why}", fi=init, text="raises")
+            else:
+                ctx.undecided("C01.MRO", init.short, f"driver at depth {depth} not decided by constant evaluation ({why})", fi=init)
             bad = True
             continue
-        got = {k.v for k, v in res.pairs if isinstance(k, Const)}
-        if got != expected[cname]:
-            missing = sorted(expected[cname] - got)
-            ctx.violated("C01.MRO", coll.short, f"a driver class {cname} (depth {list(expected).index(cname) + 1}) collects groups {sorted(got)}, expected {sorted(expected[cname])}: groups {missing} declared by an indirect ancestor are lost, so their properties are never defined to clients", fi=coll, text=f"lost:{cname}:{missing}", witness=f"class SynC(SynB(SynA(Driver))) with one group per level")
+        got = []
+        for e in paths[0].calls(method="send_message"):
+            a_ = e.data["args"][0] if e.data["args"] else None
+            if isinstance(a_, Term) and is_call(a_, method="to_def_message") and isinstance(a_.args[0], Fn):
+                got.append(show(a_.args[0].self_val).split(".")[-1])
+        collected[cname] = sorted(got)
+        if sorted(got) != expected[cname]:
+            missing = sorted(set(expected[cname]) - set(got))
+            ctx.violated("C01.MRO", init.short, f"a driver class {cname} (depth {depth}) announces properties {sorted(got)}, expected {expected[cname]}: the groups of ancestors beyond the direct parent ({missing}) are lost, so their properties are never defined to any client", fi=init, text=f"mro:{cname}", witness="class SynA(Driver): ga=...; class SynB(SynA): gb=...; class SynC(SynB): gc=...; class SynD(SynC): pass")
             bad = True
-        else:
-            # values must be the group definition objects of the declaring classes
-            for k, v in res.pairs:
-                if not (isinstance(v, Obj) and v.label.startswith("group:")):
-                    ctx.violated("C01.MRO", coll.short, f"group '{show(k)}' of {cname} maps to {show(v)[:40]}, not to a group definition", fi=coll, text=f"value:{cname}")
-                    bad = True
     if not bad:
-        ctx.holds("C01.MRO", coll.short, "groups of all ancestors collected on a 4-level synthetic hierarchy (metaclass table computed from DriverMeta.__new__)", fi=coll)
-    ctx.sample({"rule": "C01.MRO", "hierarchy": "SynD(SynC(SynB(SynA(Driver))))", "collected": {k: sorted(kk.v for kk, _ in v.pairs) if isinstance(v, Dct) else show(v) for k, v in results["out"].items()}})
+        ctx.holds("C01.MRO", init.short, "properties of all ancestors announced on a 4-level synthetic hierarchy (metaclass, collector and constructors interpreted)", fi=init)
+    ctx.sample({"rule": "C01.MRO", "hierarchy": "SynD(SynC(SynB(SynA(Driver))))", "announced": collected})
+
+
+_ENUM_SRC = '''
+from indi.device import Driver, properties
+
+
+class Base(Driver):
+    g0 = properties.Group("GRP0", vectors=dict(x=properties.TextVector("V0", elements=dict(a=properties.Text("A"), b=properties.Text("B"), c=properties.Text("C")))))
+
+
+class DevA(Base):
+    g1 = properties.Group(
+        "GRP1",
+        vectors=dict(
+            first=properties.TextVector("V1", elements=dict(a=properties.Text("A"), b=properties.Text("B"))),
+            second=properties.NumberVector("V2", elements=dict(a=properties.Number("A"))),
+        ),
+    )
+    g2 = properties.Group("GRP2", vectors=dict(third=properties.SwitchVector("V3", elements=dict(c=properties.Switch("C"), d=properties.Switch("D")))))
+'''
 
 
 def rule_enum(ctx):
+    """Every declared property of every group (own and inherited) exists in the constructed driver, is announced by a
+    whole-device getProperties, is addressable by its wire name, and holds every declared element.  Decided by abstract
+    evaluation on a driver constructed from an analysis-only definition with three groups, one of them inherited."""
+    from .driverworld import _reachable_objs, build_drivers
+    from .common import public_get
     p = ctx.p
+    _init(p)
     drv = p.cls("indi.device.driver.Driver")
+    f = drv.find_method("message_from_client")
     init = drv.methods["__init__"]
-    paths = run_method(p, init, opts={"max_for": 1})
-    ctx.paths_enumerated += len(paths)
-    good = False
+    gp = p.cls("indi.message.get_properties.GetProperties")
+    declared = {"V0": ["A", "B", "C"], "V1": ["A", "B"], "V2": ["A"], "V3": ["C", "D"]}
     bad = False
-    for pa in paths:
-        if pa.outcome != "return":
-            continue
-        enters = [e for e in pa.events if e.kind == "loop-enter"]
-        table = [e.data["value"] for e in pa.events if e.kind == "store" and e.data.get("attr") == "_vectors" and show(e.data["base"]) == "self"]
-        stores = [e for e in pa.events if e.kind == "store" and e.data.get("key") is not None and table and e.data.get("base") is table[-1]]
-        full = len(enters) >= 2 and all(e.data["n"] == 1 for e in enters[:2])
-        if not full:
-            continue
-        if len(stores) != 1:
-            ctx.violated("C01.ENUM", init.short, "a vector of a group is not entered into the driver's vector table", fi=init, text="not-stored")
+    for name, expect in ((None, sorted(declared)), ("V0", ["V0"]), ("V3", ["V3"]), ("V2", ["V2"])):
+        def run(it: Interp):
+            d = build_drivers(it, p, names=(("DevA", "DEVA"),), src=_ENUM_SRC, extra_classes=("Base",))["DEVA"]
+            it.objs = {o.label: o for o in _reachable_objs(d)}
+            m = Obj(gp, {"device": Const("DEVA"), "name": Const(name), "version": Const("1.7"), "__closed__": Const(True)}, label="getProperties")
+            return it.run_function(Fn(f, d), [m], {})
+
+        paths = explore(p, run, {"inline": lambda fi, node: False})
+        ctx.paths_enumerated += len(paths)
+        if len(paths) != 1 or paths[0].outcome != "return":
+            ctx.undecided("C01.ENUM", init.short, f"getProperties(name={name!r}) on the constructed three-group driver is not decided by constant evaluation", fi=init)
             bad = True
             continue
-        s = stores[0]
-        nloops = len([c for c in s.ctx if c[0] == "loop"])
-        key, val = s.data["key"], s.data["value"]
-        it0, it1 = show(enters[0].data["iterable"]), show(enters[1].data["iterable"])
-        conds = [e for e in pa.assumes() if any(c[0] == "loop" for c in e.ctx)]
-        groups_val = [e.data["value"] for e in pa.events if e.kind == "store" and e.data.get("attr") == "_groups" and show(e.data["base"]) == "self"]
-
-        def view_base(t):
-            if isinstance(t, Term) and t.op == "call" and isinstance(t.args[0], Term) and t.args[0].op == "attr" and t.args[0].args[1] in ("items", "values"):
-                return t.args[0].args[0]
-            return None
-
-        b0, b1 = view_base(enters[0].data["iterable"]), view_base(enters[1].data["iterable"])
-        ok = (
-            nloops == 2 and groups_val and b0 is groups_val[-1]
-            and isinstance(b1, Term) and b1.op == "attr" and b1.args[1] in ("vectors", "_vectors") and isinstance(b1.args[0], Term) and b1.args[0].op == "val" and b1.args[0].args[0] is b0
-            and isinstance(val, Term) and val.op == "val" and val.args[0] is b1 and show(key) == show(val) + ".name" and not conds
-        )
-        if ok:
-            good = True
-        else:
-            ctx.violated("C01.ENUM", init.short, f"the vector table is not filled with every vector of every group under its wire name (loops over {it0[:40]} / {it1[:40]}, key {show(key)[:40]}, filter {[show(c.data['cond'])[:40] for c in conds]})", fi=init, text="fill")
+        pa = paths[0]
+        got = []
+        for e in pa.calls(method="send_message"):
+            a_ = e.data["args"][0] if e.data["args"] else None
+            if isinstance(a_, Term) and is_call(a_, method="to_def_message") and isinstance(a_.args[0], Fn):
+                got.append(show(a_.args[0].self_val).replace("vec:DEVA.", ""))
+        if sorted(got) != expect:
+            ctx.violated("C01.ENUM", init.short, f"a driver declaring properties {sorted(declared)} in three groups (one inherited) answers getProperties(name={name!r}) with {sorted(got)}: a declared property is not enumerated / not addressable by its wire name", fi=init, text=f"enumerate:{name}")
             bad = True
-    if good and not bad:
-        ctx.holds("C01.ENUM", init.short, "_vectors[vector.name] = vector for every vector of every group, unconditionally", fi=init)
-    elif not bad:
-        ctx.undecided("C01.ENUM", init.short, "no path with one group and one vector explored", fi=init)
-    # groups are instantiated from the collector's result
-    src = ast.unparse(init.node)
-    ctx.check("_all_group_definitions()" in src, "C01.ENUM", init.short + " groups", "groups built from _all_group_definitions()", "Driver.__init__ does not build its groups from the inherited-definition collector", fi=init, text="collector-use")
-    # Group instantiates every vector definition; Vector every element definition
-    grp = p.cls(f"{INSTANCE_PKG}.group.Group")
-    vec = p.cls(f"{INSTANCE_PKG}.vectors.Vector")
-    for ci, src_attr, dst in ((grp, "definition.vectors", "_vectors"), (vec, "definition.elements", "_elements")):
-        f = ci.methods["__init__"]
-        paths = run_method(p, f)
-        ok = False
-        for pa in paths:
-            for e in pa.events:
-                if e.kind == "store" and e.data.get("attr") == dst:
-                    v = e.data["value"]
-                    if isinstance(v, Term) and v.op == "comp" and v.args[3] == "dict" and src_attr in show(v.args[1]) and not v.args[2] and "instance(self)" in show(v.args[0]):
-                        ok = True
-        ctx.check(ok, "C01.ENUM", f.short, f"{dst} = instance of every entry of {src_attr}", f"{ci.name}.__init__ does not instantiate every entry of {src_attr} (unfiltered)", fi=f, text=f"instantiate:{dst}")
+        if name is None:
+            have = {k: sorted(l.split(".")[-1] for l in pa.interp.objs if l.startswith(f"el:DEVA.{k}.")) for k in declared}
+            if have != {k: sorted(v) for k, v in declared.items()}:
+                ctx.violated("C01.ENUM", init.short, f"the constructed properties hold elements {have}, declared {declared}", fi=init, text="elements")
+                bad = True
+    if not bad:
+        ctx.holds("C01.ENUM", init.short, "every declared property of every group (incl. inherited) is enumerated, addressable by wire name, with every declared element", fi=init)
 
 
 # necessary conditions of convergence that other properties' rules decide (router policy independence, definitions, publication, client mirror, framing)
